@@ -53,6 +53,9 @@ func checkC07(c *Ctx) {
 		c.Undecided("C07-R1", "package terminfo", "-", "not loaded")
 		return
 	}
+	c.Rule("C07-R13", "printf-style specifications: the flags '#', ' ', '+', '-' are collected for every specification, not only behind the ':' introducer (%#x and '% d' are written without it)")
+	c.Expect("C07-R13", 1)
+	checkFormatFlagsAlways(c, p, "C07-R13")
 	fn := p.Fn("terminfo:(*Terminfo).TParm")
 	if fn == nil {
 		c.Undecided("C07-R1", "TParm", "-", "not found")
